@@ -21,6 +21,7 @@ import (
 	"time"
 
 	"github.com/codelaboratoryltd/bng/pkg/ha"
+	"go.uber.org/zap"
 	"pgregory.net/rapid"
 
 	"bngverif/internal/vstat"
@@ -36,7 +37,6 @@ type forwarder struct {
 	conns  map[net.Conn]struct{}
 	wg     sync.WaitGroup
 	closed bool
-	dbg    []string
 }
 
 func newForwarder(target string) (*forwarder, error) {
@@ -58,7 +58,6 @@ func (f *forwarder) track(c net.Conn) bool {
 	if f.closed || !f.up {
 		return false
 	}
-	f.dbg = append(f.dbg, "track "+c.LocalAddr().String()+"<->"+c.RemoteAddr().String())
 	f.conns[c] = struct{}{}
 	return true
 }
@@ -107,7 +106,6 @@ func (f *forwarder) cut(keepDown bool) {
 	for c := range f.conns {
 		cs = append(cs, c)
 	}
-	f.dbg = append(f.dbg, fmt.Sprintf("cut(%v) closes %d", keepDown, len(cs)))
 	f.mu.Unlock()
 	for _, c := range cs {
 		c.Close()
@@ -147,6 +145,9 @@ func startActive(hb time.Duration) (*activeSide, string, error) {
 		cfg.HeartbeatInterval = hb
 		a := &activeSide{store: ha.NewInMemorySessionStore(), tbl: table{}, ver: map[string]int{}}
 		lg, drops := dropCountingLogger()
+		if os.Getenv("C13_DEBUG_STACKS") != "" {
+			lg, _ = zap.NewDevelopment()
+		}
 		a.drops = drops
 		a.syn = ha.NewHASyncer(cfg, a.store, lg)
 		if err := a.syn.Start(); err != nil {
@@ -287,7 +288,7 @@ func runE2ECase(t fataler, c e2eCase) {
 		dead = true
 		if os.Getenv("C13_DEBUG_STACKS") != "" {
 			fw.mu.Lock()
-			fmt.Fprintf(os.Stderr, "forwarder %s up=%v tracked=%d log=%v\n", fw.addr(), fw.up, len(fw.conns), fw.dbg)
+			fmt.Fprintf(os.Stderr, "forwarder %s up=%v tracked=%d\n", fw.addr(), fw.up, len(fw.conns))
 			for c := range fw.conns {
 				fmt.Fprintf(os.Stderr, "  conn %s -> %s\n", c.LocalAddr(), c.RemoteAddr())
 			}
@@ -332,6 +333,12 @@ func runE2ECase(t fataler, c e2eCase) {
 		hist = append(hist, "sentinel")
 		if !pollUntil(func() bool { return held(sid) }) {
 			inconclusive("sentinel %s not seen on the standby within %v", sid, waitTimeout)
+			return false
+		}
+		// the sentinel may have arrived through the snapshot of a reconnect that is still in progress
+		// (an active that disconnects slow clients bounces the link on its own): the phase ends with the stream attached
+		if !pollUntil(func() bool { return sb.Stats().Connected }) {
+			inconclusive("standby not attached within %v after the sentinel arrived", waitTimeout)
 			return false
 		}
 		return true
